@@ -113,13 +113,16 @@ type Task struct {
 	PanicStack     string
 	files          []*FileState
 	nameCtr        uint64
+	grandCtr       uint64 // draws from the unseeded top-level math/rand functions
+	grandSeeded    bool   // rand.Seed was called by this process
+	grandSeed      uint64
 	mapCtr         uint64
 	nowCtr         uint64
 	Data           interface{} // harness slot
 	TimeFaultSteps int         // steps of this task executed under a time fault (slow window or clock jump)
 	ioFault        *Fault      // I/O error addressed at the call being executed
 	kindCount      map[string]int
-	injected       bool        // the call being executed failed by injection
+	injected       bool // the call being executed failed by injection
 }
 
 // FileState tracks an open descriptor for crash handling.
@@ -172,8 +175,8 @@ type Sim struct {
 	// IOFaultEvents counts calls that failed by injection.
 	IOFaultEvents int
 	StmtSteps     int // statement-level yields taken
-	schedNameCtr    uint64
-	CallerPkg       string
+	schedNameCtr  uint64
+	CallerPkg     string
 }
 
 // G is the simulation the shims talk to. Nil means "no simulation": shim
@@ -547,6 +550,100 @@ func NameValue() uint64 {
 }
 
 var fallbackCtr uint64
+
+// GlobalRandFixed reports whether this run models a deployment in which the
+// top-level math/rand functions are NOT seeded at process start (Go < 1.20,
+// or GODEBUG=randautoseed=0): every process then draws the same sequence.
+// The library's go.mod declares go 1.12, so such deployments exist. A pure
+// function of the run seed (a quarter of the runs), so it replays.
+func (s *Sim) GlobalRandFixed() bool { return Hash4(s.Seed, "grandmode", 0, 0)%4 == 0 }
+
+// GlobalRandValue is the stream behind the top-level functions of math/rand
+// (rand.Uint32(), rand.Intn, ...). Seeded by the process (rand.Seed): a
+// function of that seed alone. Unseeded: per process and random in
+// auto-seeding deployments, the same sequence in every process otherwise.
+func GlobalRandValue() uint64 {
+	s := G
+	if s == nil || s.cur == nil {
+		return NameValue()
+	}
+	t := s.cur
+	if t.grandSeeded {
+		t.grandCtr++
+		return Hash4(t.grandSeed, "grand-seeded", 0, t.grandCtr)
+	}
+	if s.GlobalRandFixed() {
+		t.grandCtr++
+		s.Counters["global-rand-fixed-draw"]++
+		return Hash4(1, "grand-fixed", 0, t.grandCtr)
+	}
+	return NameValue()
+}
+
+// GlobalRandSeed is rand.Seed called by the running process.
+func GlobalRandSeed(seed int64) {
+	s := G
+	if s == nil || s.cur == nil {
+		return
+	}
+	s.cur.grandSeeded, s.cur.grandSeed, s.cur.grandCtr = true, uint64(seed), 0
+}
+
+// EpochNS keeps simulated times away from the zero Time (shared by the time
+// shim's Now and the os shim's ModTime).
+const EpochNS = int64(1600000000) * int64(1000000000)
+
+// Pid is the process id of the running simulated process: one per task, so
+// that a library that puts its pid into file names or lock contents sees
+// what separate processes would see.
+func Pid() int {
+	if G != nil && G.cur != nil {
+		return 1000 + G.cur.ID
+	}
+	return 1
+}
+
+// MTimeGranNS is the granularity of file modification times on this run's
+// disk: nanoseconds, a kernel tick (4 ms, ext4/xfs with the coarse clock),
+// one second (ext3, HFS+, NFSv2) or two (FAT). A pure function of the run
+// seed. Runs last well under a second of simulated time unless time faults
+// are injected, so with coarse stamps files written at different moments
+// carry equal times - which is what code that compares times must survive.
+func MTimeGranNS() int64 {
+	if G == nil {
+		return 1
+	}
+	switch Hash4(G.Seed, "mtimegran", 0, 0) % 20 {
+	case 0, 1, 2, 3, 4:
+		return 1
+	case 5, 6, 7, 8, 9:
+		return 4000000
+	case 10, 11, 12, 13, 14, 15, 16:
+		return 1000000000
+	}
+	return 2000000000
+}
+
+// DirPermSeed is the hash-addressed choice of the order in which an open
+// directory hands out its entries (Readdir / Readdirnames: directory
+// order, which no filesystem promises to be sorted).
+func DirPermSeed() uint64 {
+	s := G
+	if s == nil || s.cur == nil {
+		return 0
+	}
+	t := s.cur
+	t.mapCtr++
+	return Hash4(s.Seed, "dir", uint64(t.ID), t.mapCtr)
+}
+
+// ReadCalls / ReadBytes count what descriptor reads (Read, ReadAt) have
+// delivered to the library since the process started (never reset; users
+// take differences). Only the storage-fault checks look at them.
+var ReadCalls, ReadBytes int64
+
+// InTask reports whether a simulated process is executing.
+func InTask() bool { return G != nil && G.cur != nil }
 
 // MapPerm returns a hash-addressed permutation seed for a map range.
 func mapPermSeed() (uint64, bool) {
